@@ -13,14 +13,16 @@ ID = 'C13'
 LEVEL = 'model_checking'
 CHUNK = 100
 
-RULE = ('scenario corpus = the 16 conversations of C03 (both roles: echo, multi-fragment store, release from either side, abort from '
-        'either side, reject, release collision, unknown PDU, RJ, AC+abort) x {peer disconnect after every byte prefix of the peer\'s '
-        'stream; peer disconnect delivered at every non-quiescent loop head; peer silence (10.5 s in three advances) at every quiescent '
-        'point where ARTIM is armed; peer never sending its first PDU; peer never closing after our A-RELEASE-RP / A-ABORT / '
-        'A-ASSOCIATE-RJ; stop request (kill flag) and stop() at every quiescent point}. Oracle: run() returns, no exception, no hang, '
-        'no blocking recv; after a disconnect or ARTIM expiry the provider is idle (Sta1) with the transport closed and the timer '
-        'stopped; an abort indication was given iff an association had been indicated and the local user had not ended it itself; '
-        'the loop-exited event is set whenever run() ends. distinct/non-trivial = distinct (conversation, fault kind, fault point)')
+RULE = ('scenario corpus = the 23 conversations of C03 (both roles: echo, multi-fragment store, release from either side, abort from '
+        'either side incl. local aborts, reject, release collision, unknown PDU, RJ, AC+abort, PDUs followed by an immediate close) x '
+        '{peer disconnect after every byte prefix of the peer\'s stream; peer disconnect delivered at every non-quiescent loop head; '
+        'connection reset; send failing on a dead connection; peer silence (10.5 s in three advances) at every quiescent point, judged '
+        'against where the TLC-checked protocol model arms ARTIM; the same silence while another association of the same process is set '
+        'up and released in between; stop request (kill flag) and stop() at every quiescent point}. Oracle: run() returns, no exception, '
+        'no hang, no blocking recv; after a disconnect or ARTIM expiry the provider is idle (Sta1) with the transport closed and the timer '
+        'stopped; an abort indication was given iff an association had been indicated and the local user had not ended it itself; the '
+        'loop-exited event is set whenever run() ends. Part 2 (coverage.part2_whole_stack): eleven endings through the whole stack under '
+        'the schedule explorer. distinct/non-trivial = distinct (conversation, fault kind, fault point)')
 ASSUMPTIONS = ['virtual clock; ARTIM = 10 s as configured by the provider', 'in states without ARTIM peer silence is not bounded by the '
                'provider (the upper layer\'s receive timeout bounds it: part 2)']
 
